@@ -403,13 +403,13 @@ def cases(rng, tier):
     quick = tier == "quick"
     for c in tt_cases():
         yield c
-    for _ in range(260 if quick else 3000):
+    for _ in range(150 if quick else 3000):
         yield _gen_revert(rng)
-    for _ in range(140 if quick else 1500):
+    for _ in range(80 if quick else 1500):
         yield _gen_remove(rng)
-    for i in range(80 if quick else 800):
+    for i in range(40 if quick else 800):
         yield _gen_merge(rng, CMDS[i % 4])
-    for _ in range(20 if quick else 150):
+    for _ in range(8 if quick else 150):
         yield _gen_uncommit(rng)
 
 
@@ -767,9 +767,12 @@ def _coq_region(r):
 
 def quirky(inp):
     """a versioned entry whose basis kind is not "file" but which is a regular file on disk: the dirstate answers
-    get_file_sha1 with None once per lock (bzrformats), which the model does not describe -> oracle only"""
-    return any(e["wv"] and e["basis"] is not None and e["basis"][0] != "f" and e["disk"] is not None
-               and e["disk"][0] == "f" for e in inp.get("names", []))
+    (or becomes one through the revert): the dirstate answers get_file_sha1 with None once per lock (bzrformats),
+    which the model does not describe -> oracle only"""
+    def isf(nd):
+        return nd is not None and nd[0] == "f"
+    return any(e["wv"] and e["basis"] is not None and e["basis"][0] != "f" and (isf(e["disk"]) or isf(e["target"]))
+               for e in inp.get("names", []))
 
 
 def _key(inp):
@@ -932,6 +935,17 @@ def finding_matches(fid, inp, obs, why):
     if fid == "C12-remove-backup-probe-unescaped":
         return bool(_pct_class(inp) and why and ("content lost" in why or
                                                  (why.startswith("remove raised") and "InvalidURL" not in why)))
+    if fid == "C12-remove-unversioned-basis-path-deleted":
+        # rm --keep f (or brz remove --keep), then rm f: f is unversioned but its path is a path of the basis
+        if inp["kind"] != "remove" or inp["keep"] or inp["force"] or not why or "lost" not in why:
+            return False
+        cls = [e for e in inp["names"] if not e["wv"] and e["basis"] is not None and e["disk"] is not None
+               and e["n"] in inp["files"]]
+        bad = set(bytes(e["disk"][1]) for e in cls if e["disk"][0] == "f")
+        badl = set(e["disk"][1] for e in cls if e["disk"][0] == "l")
+        lost_l = _lost([e["disk"][1] for e in inp["names"] if e["disk"] is not None and e["disk"][0] == "l"
+                        and e["basis"] != e["disk"]], [t for _p, t in obs["lafter"]])
+        return bool(cls) and all(c in bad for c in _lost_contents(inp, obs)) and all(t in badl for t in lost_l)
     if fid == "C12-revert-kindchange-sha-none":
         if inp["kind"] != "revert" or not inp["backups"] or not why or "user-edited content lost" not in why:
             return False
